@@ -36,3 +36,42 @@ Print Assumptions C16_state_rejects_non_divisible_dimensionality.
 
 Example C16_example : parts 12 4 = [Part 0 1; Part 1 3; Part 4 4; Part 8 4].
 Proof. reflexivity. Qed.
+
+(* ---- feedback: the value is held for every number of steps --------------------------------------
+   Model/StateDyn.v: out_t = e_t + filt_t, filt_{t+1} = a filt_t + (1 - a) f out_t (lowpass synapse
+   with coefficient a = exp(-dt/tau), feedback gain f, ideal neurons). *)
+From mathcomp Require Import all_ssreflect all_algebra.
+From NSpa Require Import Model.Vec Model.StateDyn Theory.StateDynLaws.
+Import GRing.Theory.
+Local Open Scope ring_scope.
+
+Theorem C16_feedback_one_holds_the_value_for_every_number_of_steps :
+  forall (R : comRingType) (a : R) (filt : seq R) n, sd_after a 1 filt (size filt) n = filt.
+Proof. by move=> *; exact: feedback_one_holds. Qed.
+Print Assumptions C16_feedback_one_holds_the_value_for_every_number_of_steps.
+
+Theorem C16_after_the_input_ends_the_output_decays_geometrically :
+  forall (R : comRingType) (a f : R) (filt : seq R) n,
+    sd_after a f filt (size filt) n = vscale ((a + (1 - a) * f) ^+ n) filt.
+Proof. by move=> *; exact: after_input_ends_output_decays_geometrically. Qed.
+Print Assumptions C16_after_the_input_ends_the_output_decays_geometrically.
+
+Theorem C16_feedback_zero_remembers_nothing :
+  forall (R : comRingType) (a : R) d (es : seq (seq R)),
+    all (fun e => size e == d) es -> sd_run a 0 (vzero R d) es = vzero R d.
+Proof. by move=> *; exact: feedback_zero_from_rest_stays_at_rest. Qed.
+Print Assumptions C16_feedback_zero_remembers_nothing.
+
+Theorem C16_feedback_one_integrates_its_input :
+  forall (R : comRingType) (a : R) (filt e : seq R),
+    size e = size filt -> sd_next a 1 filt e = vadd filt (vscale (1 - a) e).
+Proof. by move=> *; exact: feedback_one_integrates. Qed.
+Print Assumptions C16_feedback_one_integrates_its_input.
+
+From mathcomp Require Import ssrZ.
+From Coq Require Import ZArith.
+Example C16_feedback_example :
+  sd_after (R := [comRingType of Z]) 3%Z 1%Z [:: 5; -2; 0]%Z 3 40 = [:: 5; -2; 0]%Z /\
+  sd_after (R := [comRingType of Z]) 3%Z 2%Z [:: 5; -2; 0]%Z 3 1 = [:: -5; 2; 0]%Z.
+Proof. by vm_compute. Qed.
+Print Assumptions C16_feedback_example.
